@@ -118,8 +118,10 @@ def run(ctx):
             protected.append(("handling", cs.node))
         elif "resolve_command" in names:
             protected.append(("resolution", cs.node))
-        elif cs.kind == "dynamic" and isinstance(cs.node.func, ast.Name) and "factory" in cs.node.func.id:
+        elif (isinstance(cs.node.func, ast.Name) and "factory" in cs.node.func.id) or (isinstance(cs.node.func, ast.Attribute) and "factory" in cs.node.func.attr):
             protected.append(("io creation", cs.node))
+        elif isinstance(cs.node.func, ast.Attribute) and cs.node.func.attr == "handle" and len(cs.node.args) == 2 and not cs.targets:
+            protected.append(("handling", cs.node))
     ctx.require(len(protected) >= 3, "io factory / resolve_command / command.handle calls not all found in run()")
     for what, call in protected:
         ok_exc = ok_kbd = False
@@ -165,6 +167,12 @@ def run(ctx):
     cfg = ctx.cfg(do_handle)
     hcalls = [cs for cs in cg.sites_in(do_handle) if isinstance(cs.node.func, ast.Call) or (cs.kind == "dynamic" and not isinstance(cs.node.func, ast.Attribute))]
     hcalls = [cs for cs in hcalls if not (isinstance(cs.node.func, ast.Name))]
+    # ... or through a local that holds the bound method: m = getattr(handler, name); m(args, io, self)
+    getattr_locals = {t.id for n in walk_no_nested(do_handle.node) if isinstance(n, ast.Assign) and isinstance(n.value, ast.Call) and isinstance(n.value.func, ast.Name) and n.value.func.id == "getattr"
+                      for t in n.targets if isinstance(t, ast.Name)}
+    for cs in cg.sites_in(do_handle):
+        if isinstance(cs.node.func, ast.Name) and cs.node.func.id in getattr_locals and cs not in hcalls:
+            hcalls.append(cs)
     ctx.require(hcalls, "dynamic handler call not found in Command._do_handle")
     handled_true = [n for n in cfg.nodes if n.kind == "T" and any(isinstance(c, ast.Call) and isinstance(c.func, ast.Attribute) and c.func.attr == "is_handled" for c in walk_no_nested(n.ast))]
     for cs in hcalls:
